@@ -19,7 +19,9 @@ RULE = ('every public op / nn op / loss (every reduction) / scalar-operator form
         'prefix / suffix, 0-d against (1,), one extent off, broadcast-compatible either way, same size) on leaves and op results of every rank incl. 0-d, dtype and shape of every buffer queried after every call. Implementation-only: the float32 result agrees with the float64 result to single '
         'precision — also with every operand at the EDGES of the domain of the op (exact zeros of either sign, denormals, the smallest normal, values below and around every '
         'epsilon guard, the largest float32 below 1) for log / sqrt / exp / pow / division / reductions / activations / softmax family / every loss / batch-norm with a '
-        'constant channel, values and gradients compared element by element with the float32 rounding of the float64 run. Every nn layer / loss class under EVERY option '
+        'constant channel, values and gradients compared element by element with the float32 rounding of the float64 run; and at LARGE-but-legal magnitudes (+-{30, 80, 88, 89, 100, 300, 690, 705} '
+        'with small offsets, rows mixing far-apart entries, each input alone and all in one tensor; enumerated in every run) for exp / log / sqrt / pow / division / activations / the softmax family along either dim (functions and layers) / '
+        'the logit losses, result and gradient under a non-uniform upstream gradient, demanded where the float64 value is finite and inside the float32 range. Every nn layer / loss class under EVERY option '
         'value incl. the boundary ones (Dropout p in {0, .25, .5, 1-2^-24, 1}; BatchNorm momentum None / 0 / .1 / 1 x eps 0 / 1e-5 / 1 x affine x running statistics; '
         'LeakyReLU slope 0 / 1 / 2 / negative; pools, convolutions, Unfold / Fold with kernel = input size, stride > kernel, padding, dilation; Linear 1x1 / without bias / '
         '1-d input; Flatten over every dim pair; every reduction) x both dtypes, the one object called in train and eval mode in a drawn order: dtype and shape of the '
@@ -527,6 +529,124 @@ def _edge(c):
     return None
 
 
+# ---- float32 against float64 at LARGE-but-legal magnitudes (implementation side) --------------------------------------------------
+# every op whose formula holds exp / log / pow / a division, at +-LARGE_MAGS (around float32's exp range 88.72 / -103.97, around float64's
+# 709.78), rows mixing far-apart entries, constant offsets with small noise; forward values AND gradients (non-uniform upstream gradient);
+# enumerated, not drawn: the same inputs in every run and in both tiers.  Demanded only where the float64 result is finite and its float32
+# rounding is finite (a gradient: where that also holds for the forward result).  Only library ops and linear wrappers: a composite written
+# here (log of exp, BCE of sigmoid) would hand float32 an intermediate TENSOR that single precision legitimately cannot hold.  Every input is ALSO run alone (as its own tensor), so a guard on the whole array's min / max cannot hide behind a
+# neighbouring row that happens to take the safe path.
+LARGE_MAGS = [30.0, 80.0, 88.0, 89.0, 100.0, 300.0, 690.0, 705.0]
+LARGE_NOISE = [0.0, -1.5, 0.25]
+LARGE_FAR_ROWS = [[0.0, 50.0, 100.0], [-120.0, 3.0, 90.0], [95.0, 97.0, 99.0], [-300.0, 0.0, 300.0], [-690.0, 0.0, 690.0], [-705.0, 0.0, 705.0], [88.0, 89.0, -89.0],
+                  [-104.0, -110.0, -130.0], [650.0, -650.0, 12.0]]
+LARGE_UP = [1.0, -2.0, 0.5, 3.0, -0.25]
+
+
+def large_rows():
+    rows = [list(r) for r in LARGE_FAR_ROWS]
+    for m in LARGE_MAGS:
+        for s in (1.0, -1.0):
+            rows.append([s * m + e for e in LARGE_NOISE])
+    return rows
+
+
+def _lab(r, k): return np.arange(r) % k
+LARGE_OPS = {
+    # name: (layout, fn(sg, nn, a) -> result)      layout: 'elem' (any shape), 'pos' (positive operands), 'row' (2-d, along dim 1), 'col' (2-d, along dim 0)
+    'exp': ('elem', lambda sg, nn, a: sg.exp(a)),
+    'log': ('pos', lambda sg, nn, a: a.log()),
+    'sqrt': ('pos', lambda sg, nn, a: a.sqrt()),
+    'pow 2': ('elem', lambda sg, nn, a: a ** 2.0), 'pow 3': ('elem', lambda sg, nn, a: a ** 3.0), 'pow 12': ('elem', lambda sg, nn, a: a ** 12.0),
+    'pow 0.5': ('pos', lambda sg, nn, a: a ** 0.5), 'pow -1': ('elem', lambda sg, nn, a: a ** -1.0), 'pow -2': ('elem', lambda sg, nn, a: a ** -2.0),
+    'rpow 2': ('elem', lambda sg, nn, a: 2.0 ** a), 'rpow 1.1': ('elem', lambda sg, nn, a: 1.1 ** a),
+    '1 / x': ('elem', lambda sg, nn, a: 1.0 / a), 'x / reversed x': ('elem2', lambda sg, nn, a, b: a / b), 'x * reversed x': ('elem2', lambda sg, nn, a, b: a * b),
+    'sigmoid': ('elem', lambda sg, nn, a: sg.sigmoid(a)), 'nn.Sigmoid': ('elem', lambda sg, nn, a: nn.Sigmoid()(a)),
+    'tanh': ('elem', lambda sg, nn, a: sg.tanh(a)), 'nn.Tanh': ('elem', lambda sg, nn, a: nn.Tanh()(a)),
+    'relu': ('elem', lambda sg, nn, a: sg.relu(a)), 'leaky_relu': ('elem', lambda sg, nn, a: sg.leaky_relu(a, 0.01)),
+    'selu': ('elem', lambda sg, nn, a: sg.selu(a)), 'nn.SELU': ('elem', lambda sg, nn, a: nn.SELU()(a)),
+    'binary_cross_entropy_with_logits': ('elem', lambda sg, nn, a: sg.binary_cross_entropy_with_logits(a, sg.Tensor((np.arange(a.data.size) % 2).reshape(a.shape).astype(a.data.dtype)))),
+    'nn.BCEWithLogitsLoss': ('elem', lambda sg, nn, a: nn.BCEWithLogitsLoss()(a, sg.Tensor(((np.arange(a.data.size) + 1) % 2).reshape(a.shape).astype(a.data.dtype)))),
+    'mse_loss': ('elem', lambda sg, nn, a: sg.mse_loss(a, sg.Tensor(np.ones(a.shape, dtype=a.data.dtype)))),
+    'sum': ('elem', lambda sg, nn, a: a.sum()), 'mean': ('elem', lambda sg, nn, a: a.mean()),
+    'softmax': ('row', lambda sg, nn, a: sg.softmax(a, 1)), 'softmax dim 0': ('col', lambda sg, nn, a: sg.softmax(a, 0)),
+    'nn.Softmax': ('row', lambda sg, nn, a: nn.Softmax(dim=1)(a)), 'nn.Softmax dim 0': ('col', lambda sg, nn, a: nn.Softmax(dim=0)(a)),
+    'log_softmax': ('row', lambda sg, nn, a: sg.log_softmax(a, 1)), 'log_softmax dim 0': ('col', lambda sg, nn, a: sg.log_softmax(a, 0)),
+    'nn.LogSoftmax': ('row', lambda sg, nn, a: nn.LogSoftmax(dim=1)(a)),
+    'softmax * x': ('row', lambda sg, nn, a: sg.softmax(a, 1) * a),
+    'cross_entropy': ('row', lambda sg, nn, a: sg.cross_entropy(a, sg.Tensor(_lab(a.shape[0], a.shape[1]), dtype=np.int32))),
+    'nn.CrossEntropyLoss': ('row', lambda sg, nn, a: nn.CrossEntropyLoss()(a, sg.Tensor((_lab(a.shape[0], a.shape[1]) + 1) % a.shape[1], dtype=np.int64))),
+    'nll_loss of log_softmax': ('row', lambda sg, nn, a: sg.nll_loss(sg.log_softmax(a, 1), sg.Tensor(_lab(a.shape[0], a.shape[1]), dtype=np.int32))),
+    'max': ('row', lambda sg, nn, a: a.max(dim=1)), 'min': ('row', lambda sg, nn, a: a.min(dim=1)),
+}
+
+
+def large_inputs(layout):
+    """[(label, nested list(s))]: every input alone AND all of them in one tensor"""
+    rows = large_rows()
+    if layout in ('row', 'col'):
+        tr = (lambda m: [list(t) for t in zip(*m)]) if layout == 'col' else (lambda m: m)
+        return [(f'row {r}', [tr([r])]) for r in rows] + [('all rows in one tensor', [tr(rows)]), ('the rows inside (-700, 700) in one tensor', [tr([r for r in rows if max(map(abs, r)) < 700])])]
+    groups = [[s * m + e for s in (1.0, -1.0) for e in LARGE_NOISE] for m in LARGE_MAGS] + [list(r) for r in LARGE_FAR_ROWS]
+    if layout == 'pos': groups = [sorted({abs(v) + 0.5 for v in g}) for g in groups] + [[1e10, 1e30, 3e38, 1e-30]]
+    groups = groups + [sum(groups, [])]
+    if layout == 'elem2': return [(f'values {g}', [g, list(reversed(g))]) for g in groups]
+    return [(f'values {g}', [g]) for g in groups]
+
+
+def large_case(op):
+    layout = LARGE_OPS[op][0]
+    return {'kind': 'large', 'op': op, 'dt': 'f32', 'gdt': 'f32', 'nout': 1, 'zero_d': False, 'layout': layout, 'ninputs': len(large_inputs(layout)), 'lines': ['t modes']}
+
+
+def _large_known(op, what, av, bv, at_vals):
+    """class suffix of a listed finding this disagreement belongs to, or None"""
+    return None
+
+
+def _large(c, only=None):
+    """None, or (class, description, input) of the first element on which the float32 run is not the float32 rounding of a finite, float32-representable
+    float64 result"""
+    sg = common.impl()
+    from synapgrad import nn
+    layout, fn = LARGE_OPS[c['op']]
+    known = None
+    with np.errstate(all='ignore'):
+        for label, arrs in large_inputs(layout):
+            if only is not None and label != only: continue
+            res = {}
+            for dtn in ('f32', 'f64'):
+                dt = tprog.DT[dtn]
+                leaves = [sg.Tensor(np.array(v, dtype=np.float64).astype(np.float32).astype(dt), requires_grad=True) for v in arrs]
+                out = fn(sg, nn, *leaves)
+                if out.data.dtype != dt: return 'result-dtype', f"{c['op']} of {label} on {dtn} operands returned {out.data.dtype}", label
+                n = max(1, int(np.prod(out.shape)))
+                up = np.array([LARGE_UP[j % len(LARGE_UP)] for j in range(n)], dtype=dt).reshape(out.shape)
+                out.backward(sg.Tensor(up))
+                for lf in leaves:
+                    if lf._grad is None or lf._grad.dtype != dt or lf._grad.shape != lf.data.shape:
+                        return 'grad-dtype-shape', f"{c['op']} of {label} on {dtn} operands: gradient buffer {None if lf._grad is None else (lf._grad.dtype, lf._grad.shape)}", label
+                res[dtn] = [np.array(out.data, dtype=np.float64)] + [np.array(lf._grad, dtype=np.float64) for lf in leaves]
+            for k, (a, b) in enumerate(zip(res['f32'], res['f64'])):
+                if a.shape != b.shape: return 'f32-f64-agreement', f"{c['op']} of {label}: shapes {a.shape} vs {b.shape}", label
+                b32 = b.astype(np.float32).astype(np.float64)
+                demanded = np.isfinite(b) & np.isfinite(b32)          # float64 finite and inside float32's range
+                if k > 0:          # a gradient is demanded only where the forward result it belongs to is representable in float32 itself
+                    r64 = res['f64'][0]; rep = np.isfinite(r64) & np.isfinite(r64.astype(np.float32))
+                    demanded = demanded & (rep if rep.shape == b.shape else bool(rep.all()))
+                ok = ~demanded | (a == b32) | (np.abs(a - b32) <= 2e-4 * np.maximum(1.0, np.abs(b32)))
+                for j in np.flatnonzero(~ok.ravel()):
+                    j = int(j)
+                    what = 'result' if k == 0 else f'gradient of operand {k - 1}'
+                    av, bv = float(a.ravel()[j]), float(b.ravel()[j])
+                    at_vals = [float(np.array(v, dtype=np.float64).ravel()[j]) for v in arrs if np.array(v).size == a.size]
+                    msg = f"{c['op']} of {label}: {what}, element {j}{' (operand value(s) ' + str(at_vals) + ')' if at_vals else ''}: float32 gives {av!r}, float64 gives {bv!r}"
+                    kn = _large_known(c['op'], what, av, bv, at_vals)
+                    if kn is None: return 'f32-f64-agreement', msg, label
+                    known = known or ('f32-f64-agreement-' + kn, msg, label)
+    return known
+
+
 # ---- every nn layer under every option value, boundary values included, x both dtypes x train / eval (implementation side) --------
 def layer_options():
     """(layer name, constructor arguments as a printable tuple, input shape)"""
@@ -656,6 +776,8 @@ def cases(rng, tier):
     for _ in range(1 if tier == 'quick' else 10):
         for op in EDGE_OPS:
             out.append(edge_case(rng, op, tier))
+    for op in LARGE_OPS:          # enumerated: the same inputs in every run, both tiers
+        out.append(large_case(op))
     specs = layer_options()
     for dt in ('f32', 'f64'):
         for spec in specs:
@@ -772,6 +894,9 @@ def compare(c, mo, io):
     if c['kind'] == 'edge':
         f = common.outcome(lambda: _edge(c))
         return [('float32 vs float64 at the edges of the domain', 'agree to single precision', str(f))] if f else []
+    if c['kind'] == 'large':
+        f = common.outcome(lambda: _large(c))
+        return [('float32 vs float64 at large-but-legal magnitudes', 'agree to single precision', str(f))] if f else []
     if c['kind'] == 'layeropt':
         f = common.outcome(lambda: _layeropt(c))
         return [('layer under one option value', 'dtype and shape kept', str(f))] if f else []
@@ -821,6 +946,11 @@ def distribution(cases):
         if c['kind'] == 'edge':
             k = f"edge values (zeros, denormals, below every epsilon guard; {len(c['vals'])} values) float32 vs float64: {c['op']}"
             d[k] = d.get(k, 0) + 1
+        if c['kind'] == 'large':
+            k = f"large-but-legal magnitudes, float32 vs float64, result and gradient ({c['ninputs']} inputs, layout {c['layout']}): {c['op']}"
+            d[k] = d.get(k, 0) + 1
+            ks = f'large-magnitude inputs, enumerated in every run (+-{[int(m) for m in LARGE_MAGS]} with offsets {LARGE_NOISE}, {len(LARGE_FAR_ROWS)} far-apart rows; each alone and all in one tensor)'
+            d[ks] = d.get(ks, 0) + c['ninputs']
         if c['kind'] == 'layeropt':
             k = f"layer option values x train/eval: {c['layer']}"
             d[k] = d.get(k, 0) + 1
@@ -848,6 +978,11 @@ def oracle(c):
         if f == 'rejected': return {'key': dict(key, cls='edge-raised'), 'case': cc, 'what': f"{c['op']} raised at the edge values (float32 or float64)"}
         if f and f[0] != 'f32-f64-agreement' and f[0].startswith('f32-f64-agreement-'): return {'key': {'kind': 'edge', 'cls': f[0]}, 'case': cc, 'what': f[1]}
         return {'key': dict(key, cls=f[0]), 'case': cc, 'what': f[1]} if f else None
+    if c['kind'] == 'large':
+        f = common.outcome(lambda: _large(c, c.get('only')))
+        if f == 'rejected': return {'key': dict(key, cls='large-raised'), 'case': cc, 'what': f"{c['op']} raised at large-but-legal magnitudes (float32 or float64)"}
+        if f and f[0] != 'f32-f64-agreement' and f[0].startswith('f32-f64-agreement-'): return {'key': {'kind': 'large', 'cls': f[0]}, 'case': dict(cc, only=f[2]), 'what': f[1]}
+        return {'key': dict(key, cls=f[0]), 'case': dict(cc, only=f[2]), 'what': f[1]} if f else None          # (the case narrowed to the ONE failing input)
     if c['kind'] == 'layeropt':
         f = common.outcome(lambda: _layeropt(c))
         return {'key': {'kind': c['kind'], 'op': c['layer'], 'cls': 'layer-option-dtype'}, 'case': cc, 'what': str(f)} if f else None
